@@ -39,15 +39,25 @@ fn run_one(runner: &mut Runner, case: &Value, t: usize) -> Value {
     let cache = runner.iset.cache();
     let mut n = 0;
     let iset = &mut runner.iset;
+    // (a program that doubles a name or a list with every round weighs gigabytes within its 150 steps - on sixteen
+    // threads at once: such a run leaves the resource envelope and is not compared)
+    let mut heavy = false;
     let r = catch_unwind(AssertUnwindSafe(|| {
         for _ in 0..k {
             n += 1;
             if PushInterpreter::step(&mut st, iset, &cache) {
                 break;
             }
+            if pv::exec::state_weight(&st) > 4 * pv::exec::ENV_POINTS {
+                heavy = true;
+                break;
+            }
         }
     }));
-    let env = runner.env_hit.lock().unwrap().take();
+    let mut env = runner.env_hit.lock().unwrap().take();
+    if heavy {
+        env = Some("state heavier than the envelope".to_string());
+    }
     if r.is_err() {
         return json!({"crash": true, "steps": n});
     }
